@@ -146,6 +146,37 @@ def interp(ctx, cls="prec", kind="array3", via="ctor", as_array=False):
             ctx.prove("T(z_i, t) equals the schedule at t", ctx.eq(got[i], ref(t)))
 
 
+def eval_order(ctx, cls="prec", kind="array3", via="ctor", nq=2):
+    """the schedule is a function of time only: evaluating one parameter object at arbitrary times in arbitrary order
+    (later queries may lie before earlier ones: a second run after reset(), an object handed to a second model) gives
+    the schedule at each time"""
+    args, ref, iso = mk_schedule(ctx, kind)
+    ts = [seconds(ctx, "t%d" % (i + 1)) for i in range(nq)]
+    for t in ts:
+        ref(t)
+    if cls == "prec":
+        tp = PrecTP(*args) if via in ("ctor", "model") else PrecTP()
+        if via == "setter":
+            tp.setTemperatureParameters(*args)
+        elif via == "model":
+            tp = _prec_model(tp).temperatureParameters
+        got = [tp(t) for t in ts]
+        ctx.observe("T", got)
+        for i in range(nq):
+            ctx.prove("T(t) equals the schedule at t whatever was evaluated before [query %d]" % (i + 1), ctx.eq(got[i], ref(ts[i])))
+    else:
+        dargs = diff_args(kind, args)
+        tp = DiffTP(*dargs) if via == "ctor" else DiffTP()
+        if via == "setter":
+            {"const": tp.setIsothermalTemperature, "func": tp.setTemperatureFunction}.get(kind, tp.setTemperatureArray)(*dargs)
+        z = np.linspace(0.0, 1.0, 2)
+        got = [tp(z, t) for t in ts]
+        ctx.observe("T", [list(g) for g in got])
+        for i in range(nq):
+            ctx.prove("T(z, t) equals the schedule at t whatever was evaluated before [query %d]" % (i + 1),
+                      ctx.all([len(got[i]) == len(z)] + [ctx.eq(got[i][j], ref(ts[i])) for j in range(min(len(z), len(got[i])))]))
+
+
 # --------------------------------------------------------------------------- 2. constructor == setter
 def _prec_model(tp=None):
     return PrecipitateModel(phases=["beta"], elements=["A"], temperatureParameters=tp)
@@ -162,14 +193,17 @@ def ctor_vs_setter(ctx, model="prec", kind="array2", prev="const"):
         b = _prec_model(); b.setTemperature(*args)
         c = _prec_model(PrecTP(*pargs)); c.setTemperature(*args)
         d = _prec_model(); d.setTemperature(*pargs); d.setTemperature(*args)
-        ms = [a, b, c, d]
+        tpe = PrecTP(*pargs); e = _prec_model(tpe); fill_object(tpe, kind, args)
+        tpf = PrecTP(*pargs); f = _prec_model(tpf); _prec_model(tpf).setTemperature(*args)
+        ms = [a, b, c, d, e, f]
         Ts = [m.temperatureParameters(t) for m in ms]
         ctx.observe("T", Ts)
-        for m, T, nm in zip(ms, Ts, ("constructor", "setter", "constructor(other) then setter", "setter(other) then setter")):
+        for m, T, nm in zip(ms, Ts, ("constructor", "setter", "constructor(other) then setter", "setter(other) then setter",
+                                     "constructor object filled afterwards", "shared object set through a sibling model")):
             ctx.prove("T(t) equals the schedule at t [%s]" % nm, ctx.eq(T, ref(t)))
             ctx.prove("same isothermal / non-isothermal flag as through the plain setter [%s]" % nm,
                       bool(m.temperatureParameters._isIsothermal) == bool(b.temperatureParameters._isIsothermal))
-        ctx.prove("constructor and setter agree on T(t)", ctx.all([ctx.eq(Ts[0], Ts[i]) for i in (1, 2, 3)]))
+        ctx.prove("constructor and setter agree on T(t)", ctx.all([ctx.eq(Ts[0], Ts[i]) for i in range(1, len(Ts))]))
     else:
         dargs, dpargs = diff_args(kind, args), diff_args(prev, pargs)
 
@@ -551,18 +585,35 @@ class _NucStub:
         return 1.1e-9
 
 
+def fill_object(tp, kind, args):
+    """set the schedule on the parameter object itself (not through a model)"""
+    {"const": tp.setIsothermalTemperature, "func": tp.setTemperatureFunction}.get(kind, tp.setTemperatureArray)(*args)
+
+
 def incubation(ctx, kind="array2", prev="const"):
-    """the real _calcNucleationRate selects the same (isothermal / non-isothermal) incubation time whichever way the
-    schedule was supplied (constructor parameter object, setter, either after another schedule); the non-isothermal one
-    receives the current time, the schedule's temperature at it and the recorded history"""
+    """the real _calcNucleationRate selects the same (isothermal / non-isothermal) incubation time -- the one of the
+    schedule in force when the nucleation rate is evaluated -- whichever way the schedule reached the model (constructor
+    parameter object, setter, either after another schedule, parameter object filled after construction, object shared
+    with a sibling model whose setter is used); the non-isothermal one receives the current time, the step's temperature
+    and the recorded history"""
     args, ref, iso = mk_schedule(ctx, kind)
     pargs, _, _ = mk_schedule(ctx, prev, tag="p_")
     t = seconds(ctx, "t", (0.01, 5.0))
     ctx.assume(t > 0)
-    routes = ("setter", "constructor", "constructor(other) then setter", "setter(other) then setter")
+    routes = ("setter", "constructor", "constructor(other) then setter", "setter(other) then setter",
+              "constructor object filled afterwards", "shared object set through a sibling model")
     sel = {}
     for nm in routes:
-        if nm == "constructor":
+        if nm == "constructor object filled afterwards":
+            tp = PrecTP(*pargs)
+            m, log, used = mk_binary(ctx, tp)
+            fill_object(tp, kind, args)
+        elif nm == "shared object set through a sibling model":
+            tp = PrecTP(*pargs)
+            m, log, used = mk_binary(ctx, tp)
+            sibling = PrecipitateModel(phases=["beta"], elements=["A"], temperatureParameters=tp)
+            sibling.setTemperature(*args)
+        elif nm == "constructor":
             m, log, used = mk_binary(ctx, PrecTP(*args))
         elif nm == "setter":
             m, log, used = mk_binary(ctx, None); m.setTemperature(*args)
@@ -658,8 +709,15 @@ HARNESSES = [
             params={"quick": [dict(cls=c, kind=k, via=v) for c in ("prec", "diff") for k in KINDS for v in ("ctor", "setter")],
                     "thorough": [dict(cls=c, kind=k, via=v, as_array=a) for c in ("prec", "diff") for k in ("array1", "array2", "array3", "array4", "array5")
                                  for v in ("ctor", "setter") for a in (False, True)]}),
+    Harness("C13.eval_order", eval_order, functions=_FT, assumptions=_A_SCHED, budget={"quick": 120.0, "thorough": 1200.0},
+            bounds={"break points": "3-4 (quick), 3-5 (thorough)", "queries on one object": "2 (quick), 3 (thorough), in any order"},
+            params={"quick": [dict(cls="prec", kind="array3", via="ctor"), dict(cls="prec", kind="array4", via="setter"), dict(cls="prec", kind="const", via="ctor"),
+                              dict(cls="prec", kind="func", via="setter"), dict(cls="diff", kind="array3", via="ctor"), dict(cls="diff", kind="func", via="setter"),
+                              dict(cls="diff", kind="const", via="setter")],
+                    "thorough": [dict(cls=c, kind=k, via=v, nq=(2 if k == "array4" else 3)) for c in ("prec", "diff") for k in ("const", "array3", "array4", "func") for v in ("ctor", "setter")] +
+                                [dict(cls="prec", kind="array5", via="ctor", nq=2), dict(cls="prec", kind="array3", via="model", nq=3)]}),
     Harness("C13.ctor_vs_setter", ctor_vs_setter, functions=_FM, assumptions=_A_SCHED,
-            bounds={"routes": "constructor object / setter / constructor(other kind) then setter / setter(other kind) then setter"},
+            bounds={"routes": "constructor object / setter / constructor(other kind) then setter / setter(other kind) then setter / constructor object filled afterwards / object shared with a sibling model whose setter is used"},
             params={"quick": [dict(model=mo, kind=k, prev=p) for mo in ("prec", "diff") for k, p in _cvs],
                     "thorough": [dict(model=mo, kind=k, prev=p) for mo in ("prec", "diff") for k in _allk for p in ("const", "array2", "func") if p != k]}),
     Harness("C13.recorded_T", recorded_T, functions=_FR, assumptions=_A_SCHED, stubs=_S_TAG, budget={"quick": 120.0, "thorough": 1200.0},
@@ -674,7 +732,7 @@ HARNESSES = [
             params={"quick": [dict(kind="const", kind2="const"), dict(kind="const", kind2="array2"), dict(kind="array2", kind2="const"),
                               dict(kind="const", kind2="const", stages=(0.5,))],
                     "thorough": [dict(kind=k1, kind2=k2, steps=2, steps2=2) for k1, k2 in (("const", "const"), ("func", "const"), ("const", "func"))] +
-                                [dict(kind="const", kind2="array3"), dict(kind="array3", kind2="const"), dict(kind="const", kind2="const", steps2=2, stages=(0.5, 0.5, 1.0))]}),
+                                [dict(kind="const", kind2="array3"), dict(kind="array2", kind2="array2"), dict(kind="const", kind2="const", steps2=2, stages=(0.5, 0.5, 1.0))]}),
     Harness("C13.lookup_refresh", lookup_refresh, functions=_FR, assumptions=_A_TABLE, stubs=_S_TAG, bounds={"size classes": "bins", "phases": 1},
             params={"quick": [dict(bins=3)], "thorough": [dict(bins=3), dict(bins=8)]}),
     Harness("C13.lookup_history", lookup_history, functions=_FR, assumptions=_A_TABLE + _A_SCHED[1:], stubs=_S_TAG, budget={"quick": 120.0, "thorough": 1200.0},
